@@ -523,6 +523,13 @@ theorem C14_parsed_host_shape (idna : Str → Option Str) (hc : IdnaLdh idna) (s
     (h' : Str) (hh : u.host = some h') : NameHost h' ∨ LiteralHost h' ∨ ZonedHost h' :=
   parsed_host_shape hc h (normalizable_of_mem hs) hh
 
+/-- in particular the host of such a parse is pure ASCII (address parts consist of hex digits, `:`, `.`;
+zone ids of unreserved characters and escapes; names of lower-cased ASCII labels and IDNA answers) -/
+theorem C14_parsed_host_ascii (idna : Str → Option Str) (hc : IdnaLdh idna) (s : Str) (u : Url)
+    (h : parseUrlWith idna s = .ok u) (hs : u.scheme ∈ [some http, some https, none])
+    (h' : Str) (hh : u.host = some h') : h'.all (· < 128) = true :=
+  shape_ascii (parsed_host_shape hc h (normalizable_of_mem hs) hh)
+
 /-- hence normalising the parsed host once more (what a connection pool does) gives it back — unless
 it has the `zone25` shape of the known finding (`C14_reparse_zone25_witness`,
 `C14_host_idempotent_zone25_exact`) -/
@@ -541,6 +548,10 @@ example : LiteralHost [91, 102, 101, 56, 48, 58, 58, 49, 93] := ⟨by decide, by
 example : ZonedHost [91, 102, 101, 56, 48, 58, 58, 49, 37, 69, 116, 104, 48, 93] :=
   ⟨by decide, by decide, [69, 116, 104, 48], by decide,
     ⟨[.chr 69, .chr 116, .chr 104, .chr 48], by decide, by decide⟩⟩
+-- a parse that satisfies the hypotheses: "HTTP://ExAmple.COM:80/" has scheme http and host "example.com"
+example : (parseUrl [72, 84, 84, 80, 58, 47, 47, 69, 120, 65, 109, 112, 108, 101, 46, 67, 79, 77, 58, 56, 48, 47]).toOption.map
+    (fun u => (u.scheme, u.host)) = some (some http, some [101, 120, 97, 109, 112, 108, 101, 46, 99, 111, 109]) := by
+  decide
 example : zone25 [91, 102, 101, 56, 48, 58, 58, 49, 37, 69, 116, 104, 48, 93] = false ∧
     zone25 [91, 58, 58, 49, 37, 50, 53, 97, 93] = true ∧ zone25 [49, 46, 50, 46, 51, 46, 52] = false := by decide
 
